@@ -109,11 +109,16 @@ fn sources() -> Vec<String> {
         // perturbs the last bits of sin/cos/exp/ln/pow…, so those would differ between two evaluations under Miri.
         "floor(b) + ceil(b) + round(b) + math::abs(a) + min(a, b) + max(a, b) + len(s) + bitand(a, 5) + bitor(a, 2) + bitxor(a, 9) + bitnot(a) + shl(1, 3) + shr(a, 1) + math::sqrt(b) + if(math::is_nan(b), 1, 2) + len(str::to_uppercase(s))".to_string(),
         "len(str::trim(s)) + shr(a, 1) + bitor(a, 2) + len(s) + max(a, b) + min(a, b) + math::abs(a) + round(b) + ceil(b) + floor(b) + len(str::to_lowercase(s)) + if(contains((a, b), a), 1, 2) + if(math::is_finite(b), 3, 4) + len(typeof(s)) + len(str::substring(s, 1)) + bitnot(a)".to_string(),
+        // arguments that compare equal but are different values (the sign of zero), passed to one slow shared function
+        // by different threads at overlapping times: each call gets the result for its own argument
+        "zsign(0.0)".to_string(),
+        "zsign(-0.0)".to_string(),
+        "zsign((0.0, 1))".to_string(),
+        "zsign((-0.0, 1))".to_string(),
     ];
     if cfg!(miri) {
         // one of the two many-builtin expressions is enough for the interpreter, and the wide tuple covers wide nodes
-        v.pop();
-        v.retain(|s| !s.starts_with("twice(a + 1); "));
+        v.retain(|s| !s.starts_with("len(str::trim(s))") && !s.starts_with("twice(a + 1); "));
     }
     v
 }
@@ -150,6 +155,15 @@ fn make_ctx(variant: usize) -> Ctx {
         Function::new(|v: &Value| {
             spin(300);
             Ok(v.clone())
+        }),
+    )
+    .unwrap();
+    // takes a while and renders its argument exactly (Debug keeps the sign of zero)
+    c.set_function(
+        "zsign".into(),
+        Function::new(|v: &Value| {
+            spin(200);
+            Ok(Value::String(format!("{:?}", v)))
         }),
     )
     .unwrap();
@@ -225,6 +239,13 @@ fn main() {
         let expected = Arc::new(expected.clone());
         let hot = srcs.iter().position(|s| s.starts_with("(1, 2, 3")).expect("the literal lookup table is one of the sources");
         let slow_tree = srcs.iter().position(|s| s.starts_with("slow(a) + slow(c)")).expect("the slow-function expression is one of the sources");
+        let zsign0 = srcs.iter().position(|s| s == "zsign(0.0)").expect("the sign-of-zero expressions are among the sources");
+        // a shared tree that introduces identifiers no context and no tree of this process has used before; every
+        // thread evaluates it on a context of its own, all at the same moment
+        let fresh_name = format!("fresh_{}_{}_introduced_by_all_threads_at_once", seed, round);
+        let fresh_tree = Arc::new(
+            build_operator_tree::<DefaultNumericTypes>(&format!("{n} = a + {r}; other_{n} = {n} * 2; ({n}, other_{n})", n = fresh_name, r = round)).expect("workload expression must precompile"),
+        );
         let mut handles = Vec::new();
         for tid in 0..threads {
             let trees = trees.clone();
@@ -234,6 +255,8 @@ fn main() {
             let mismatches = mismatches.clone();
             let total = total_evals.clone();
             let persistent = persistent.clone();
+            let fresh_tree = fresh_tree.clone();
+            let fresh_name = fresh_name.clone();
             handles.push(std::thread::spawn(move || {
                 THREAD_ID.with(|t| t.set(tid + 1));
                 let mut r = Rng(seed ^ (round << 20) ^ ((tid as u64) << 40));
@@ -243,6 +266,52 @@ fn main() {
                 // must not leak into a shared tree)
                 let own_variant = tid % nctx;
                 let own = make_ctx(own_variant);
+                {
+                    // the shared tree assigns identifiers that are new to the whole process, on this thread's own context
+                    let mut mine = make_ctx(own_variant);
+                    let a = if own_variant % 2 == 0 { 3i64 } else { -7i64 };
+                    let v = a + round as i64;
+                    let want = format!("{:?}", Ok::<Value, EvalexprError>(Value::Tuple(vec![Value::Int(v), Value::Int(v * 2)])));
+                    let got = format!("{:?}", fresh_tree.eval_with_context_mut(&mut mine));
+                    let stored = format!("{:?}", (mine.get_value(&fresh_name), mine.get_value(&format!("other_{}", fresh_name))));
+                    let want_stored = format!("{:?}", (Some(&Value::<DefaultNumericTypes>::Int(v)), Some(&Value::<DefaultNumericTypes>::Int(v * 2))));
+                    // … and a name introduced through set_value by all threads at once, read back through a string evaluation
+                    let sv = format!("set_by_all_{}_{}", seed, round);
+                    mine.set_value(sv.clone(), Value::Int(tid as i64)).unwrap();
+                    let back = format!("{:?}", evalexpr::eval_int_with_context(&format!("{} + 1", sv), &mine));
+                    total.fetch_add(2, Ordering::Relaxed);
+                    if got != want || stored != want_stored || back != format!("{:?}", Ok::<i64, EvalexprError>(tid as i64 + 1)) {
+                        mismatches.fetch_add(1, Ordering::Relaxed);
+                        out.push(format!(
+                            "MISMATCH thread {} round {} fresh identifiers on a context of its own: expected {} stored {} read-back {} got {} stored {} read-back {}",
+                            tid, round, want, want_stored, tid + 1, got, stored, back
+                        ));
+                    }
+                }
+                // sign of zero: neighbouring threads call the same slow function of the long-lived context with 0.0 and -0.0
+                for k in 0..(if cfg!(miri) { 2 } else { 6 }) {
+                    let ti = zsign0 + (tid + k) % 4;
+                    let got = format!("{:?}", trees[ti].eval_with_context(&*persistent));
+                    total.fetch_add(1, Ordering::Relaxed);
+                    if got != expected[ti][0] {
+                        mismatches.fetch_add(1, Ordering::Relaxed);
+                        out.push(format!("MISMATCH thread {} round {} tree {} on the long-lived context: expected {} got {}", tid, round, ti, expected[ti][0], got));
+                        break;
+                    }
+                }
+                // different threads evaluate different strings through the string-level entry points at the same time
+                for _ in 0..(if cfg!(miri) { 3 } else { 96 }) {
+                    let (x, y) = (r.below(64) as i64, r.below(64) as i64);
+                    let src = format!("{} + a * {} - c", x, y);
+                    let want = format!("{:?}", Ok::<i64, EvalexprError>(x + 3 * y - 1));
+                    let got = format!("{:?}", evalexpr::eval_int_with_context(&src, &*persistent));
+                    total.fetch_add(1, Ordering::Relaxed);
+                    if got != want {
+                        mismatches.fetch_add(1, Ordering::Relaxed);
+                        out.push(format!("MISMATCH thread {} round {} string evaluation of `{}` on the long-lived context: expected {} got {}", tid, round, src, want, got));
+                        break;
+                    }
+                }
                 // all threads hammer one wide shared tree and the long-lived context right after the barrier
                 for _ in 0..(if cfg!(miri) { 2 } else { 8 }) {
                     let got = format!("{:?}", trees[hot].eval_with_context(&*persistent));
